@@ -201,7 +201,8 @@ def api_events(ctx, lc, tid, seq, seed):
     sp = lc.SP(seq)
     if rng.random() < 0.5:
         common.call(sp.get_kappa)
-    for which in ("shuffled", "shuffled-list", "permutant"):
+    import numpy as np
+    for which in ("shuffled", "shuffled-list", "shuffled-array", "shuffled-tuple", "shuffled-range", "permutant"):
         N = len(seq)
         frozen = sorted(rng.sample(range(N), rng.randint(0, min(N, 4))))
         if which == "permutant":
@@ -211,8 +212,14 @@ def api_events(ctx, lc, tid, seq, seed):
             if which == "shuffled":
                 out = common.call(sp.get_shuffled_sequence, set(frozen))
                 parent = sp.SeqObj
-            elif which == "shuffled-list":
-                out = common.call(sp.get_shuffled_sequence, list(frozen))
+            elif which.startswith("shuffled-"):
+                if which == "shuffled-range":
+                    frozen = list(range(0, rng.randint(0, min(N, 4))))
+                if which == "shuffled-array" and rng.random() < 0.5:
+                    frozen = [0]
+                arg = {"shuffled-list": list(frozen), "shuffled-array": np.array(frozen, dtype=int), "shuffled-tuple": tuple(frozen),
+                       "shuffled-range": range(0, len(frozen))}[which]
+                out = common.call(sp.get_shuffled_sequence, arg)
                 parent = sp.SeqObj
             else:
                 pm = common.call(lc.SPerm, seq)
